@@ -33,14 +33,19 @@ def check_closure_idioms(ctx, extra_roots=()):
                      check_falsy_numeric_default,
                          check_sentinel_codes_gather,
                      check_falsy_numeric_default,
-                         check_falsy_numeric_default)
+                         check_falsy_numeric_default,
+                         check_returns_depend_alike)
     from .h5names import check_h5_names_created_once
-    from .scatter import check_pointer_scatter
+    from .scatter import (check_pointer_scatter,
+                          check_pointer_window_rebased)
     from .tiling import (check_tiling, check_whole_axis,
                          check_window_writes, check_buffer_windows,
                          check_store_advances, check_batch_search,
                      check_copy_not_filtered_by_content,
-                         check_copy_not_filtered_by_content)
+                     check_extent_follows_array,
+                         check_copy_not_filtered_by_content,
+                     check_extent_follows_array,
+                         check_extent_follows_array)
     from .perm import (check_request_order, check_unsort_pairs,
                        check_sorted_results_unsorted)
     from .nodekeys import check_memo_keys
@@ -75,6 +80,7 @@ def check_closure_idioms(ctx, extra_roots=()):
                      check_truthy_position, check_jump_in_finally,
                      check_narrowing_cast, check_inplace_float_store,
                      check_h5_names_created_once, check_pointer_scatter,
+                     check_pointer_window_rebased,
                      check_whole_axis, check_request_order,
                      check_unsort_pairs, check_sorted_results_unsorted,
                      check_memo_keys, check_index_dtype, check_borrowed_dtype,
@@ -84,6 +90,7 @@ def check_closure_idioms(ctx, extra_roots=()):
                      check_window_writes, check_buffer_windows,
                      check_store_advances, check_batch_search,
                      check_copy_not_filtered_by_content,
+                     check_extent_follows_array,
                      CU.check_cursors,
                      CU.check_advance):
             try:
